@@ -213,3 +213,14 @@ package req
 //@ func (*context).SendMsg
 //@   ghost wasclosed = s.closed || c.closed at call:Lock#1
 //@   ensures wasclosed ==> result == protocol.ErrClosed
+
+// ---- round 11 (C03 "a reply is delivered only to the request it answers"): the header a context queues
+// is a private 4-byte array holding the id of this very request, so nothing a later Send on the same
+// context writes can change the bytes of a request that is still on its way out ----
+//@ func (*context).SendMsg
+//@   before call:send#1 assert len(m.Header) == 4 && fresh_arr(m.Header)
+//@   before call:send#1 assert c.reqID >= 2147483648
+//@   before call:send#1 assert be32(m.Header) == c.reqID
+//@   before call:send#2 assert len(m.Header) == 4 && fresh_arr(m.Header)
+//@   before call:send#2 assert c.reqID >= 2147483648
+//@   before call:send#2 assert be32(m.Header) == c.reqID
